@@ -275,6 +275,11 @@ func (c *Ctx) oneErrorSite(prefix string, sc errScope, fn *gf.Fn, an *gf.Analysi
 		return
 	}
 	parent := path[len(path)-2]
+	// a function value handed down to a helper is called under the helper's name for it: the idioms are tabled under the
+	// name it has in the function that was handed it first
+	if strings.HasPrefix(callee, "dyn:") && sc.lit == nil && c.liftedAway(sc.fi) {
+		callee = "dyn:" + c.originalParamName(sc.fi, strings.TrimPrefix(callee, "dyn:"), 0)
+	}
 	idioms := idiomFor(sc.name, callee)
 	// a helper expanded into its callers inherits the idioms tabled for them (the handling was moved, not changed)
 	// (only what is tabled for every one of its callers: a tolerance reviewed for one caller is not one for another)
@@ -675,6 +680,34 @@ func (c *Ctx) workerWiring(prefix string) {
 			}
 			return true
 		})
+		if !okLoop {
+			// `for { if more := processNextWorkItem(); !more { return } }`: with a true result bound to a variable, the
+			// call is reached again and no return before it
+			winfo := w.Pkg.TypesInfo
+			wfn, wan := c.Analysis(w)
+			for _, call := range callsIn(w.Decl.Body, false) {
+				if f := gf.StaticCallee(winfo, call); f == nil || f.Origin() != fi.Obj {
+					continue
+				}
+				as, isAs := stmtOf(w.Decl.Body, call).(*ast.AssignStmt)
+				if !isAs || len(as.Lhs) != 1 || innermostLoop(w.Decl.Body, call) == nil {
+					continue
+				}
+				aT := wfn.FromAfterUntil(as, wan.StateAfter(as).Assume(gf.FBool(wfn.Term(as.Lhs[0]))), as) // (one round)
+				again := aT.Reentered(as)
+				ownNodes(w.Decl.Body, func(x ast.Node) {
+					if r, ok := x.(*ast.ReturnStmt); ok && aT.StateBefore(r).Reachable() {
+						again = false
+					}
+				})
+				if ir := wfn.ImplicitReturn(); ir != nil && aT.StateBefore(ir).Reachable() {
+					again = false
+				}
+				if again {
+					okLoop = true
+				}
+			}
+		}
 		c.Check(okLoop, prefix+"-worker-loop", "worker", w.Decl.Pos(), "the worker keeps processing until the queue shuts down", "the worker does not loop over processNextWorkItem")
 	}
 }
@@ -935,4 +968,50 @@ func (c *Ctx) statusRetryShape(prefix string) {
 		_, ret = p[len(p)-2].(*ast.ReturnStmt)
 	}
 	c.Check(ret, prefix+"-status-write-error-returned", "UpdateStatefulSetStatus", retry.Pos(), "the retry's result is returned", "the retry's result is not returned")
+}
+
+// originalParamName: the parameter `name` of the helper h is bound, at h's only call site in its package, to a plain
+// identifier: that identifier's name (followed further up while the caller is such a helper too).
+func (c *Ctx) originalParamName(h *load.FuncInfo, name string, depth int) string {
+	if depth > 3 {
+		return name
+	}
+	k := -1
+	i := 0
+	for _, pf := range h.Decl.Type.Params.List {
+		for _, pn := range pf.Names {
+			if pn.Name == name {
+				k = i
+			}
+			i++
+		}
+	}
+	if k < 0 {
+		return name
+	}
+	var site *ast.CallExpr
+	var caller *load.FuncInfo
+	n := 0
+	for _, g := range c.P.Funcs() {
+		if g.Pkg != h.Pkg {
+			continue
+		}
+		for _, cc := range callsIn(g.Decl.Body, true) {
+			if f := gf.StaticCallee(g.Pkg.TypesInfo, cc); f != nil && f.Origin() == h.Obj {
+				site, caller = cc, g
+				n++
+			}
+		}
+	}
+	if n != 1 || k >= len(site.Args) {
+		return name
+	}
+	id, ok := ast.Unparen(site.Args[k]).(*ast.Ident)
+	if !ok {
+		return name
+	}
+	if c.liftedAway(caller) {
+		return c.originalParamName(caller, id.Name, depth+1)
+	}
+	return id.Name
 }
